@@ -62,12 +62,33 @@ def leftmost_leaf_of_saturating_add(expr):
     return cur, rights
 
 
+def fee_formula_fns(F, mg):
+    out = list(mg)
+    for m in ("min_fee", "max_fee", "refund_fee"):
+        out += F.find(r"^fuel_tx::transaction::fee::Chargeable::%s$" % m, ["fuel_tx"])
+    return out
+
+
 def run(F, rep, tier, allfacts):
     rep.rule("FORM-max_gas", "max_gas = min_gas(..) saturating_add ... (left-most leaf is min_gas with the same arguments)")
     rep.rule("FORM-fees", "min_fee/max_fee = gas_to_fee(gas, price, factor).saturating_add(tip); gas_to_fee = checked_mul.div_ceil")
     rep.rule("FORM-refund", "refund = max_fee_limit.checked_sub(try_into(gas_to_fee(min_gas+used_gas,...)+tip))")
     rep.rule("NO-PANIC", "no Assert(overflow) terminators / stray expects in the fee functions")
     rep.rule("GUARD-from_tx", "checked_from_tx: min_fee > max_fee -> None")
+    rep.rule("DISPATCH-min_gas", "fee formulas reach min_gas through the Chargeable method (so per-kind overrides apply); the free helper fee::min_gas is called only from min_gas bodies")
+    cg = CallGraph(F, ["fuel_tx", "fuel_vm"])
+    FREE = "fuel_tx::transaction::fee::min_gas"
+    METH = "fuel_tx::transaction::fee::Chargeable::min_gas"
+    nfree = 0
+    for n, i, c, args, line in cg.callers_of("^" + re.escape(FREE) + "$"):
+        if "::tests::" in n or "::test::" in n:
+            continue
+        nfree += 1
+        f = cg.fns[n]
+        ok = n == METH or re.search(r" as fuel_tx::transaction::fee::Chargeable>::min_gas$|Chargeable for .*>::min_gas$", n) is not None
+        rep.check(ok, "DISPATCH-min_gas", "free-min_gas<-" + short(n), "%s:%s" % (f["file"], line),
+                  "the free helper fee::min_gas (no per-kind surcharge) is called from %s; fee/refund code must call the Chargeable::min_gas method so that overrides (e.g. Upload's storage surcharge) apply" % n)
+    rep.floor("DISPATCH-min_gas", "callers of the free helper", nfree, 2)
 
     mg = F.find(r"Chargeable(>| for .*>)?::max_gas$", ["fuel_tx"])
     rep.floor("FORM-max_gas", "max_gas bodies", len(mg), 2)
@@ -109,6 +130,14 @@ def run(F, rep, tier, allfacts):
     want = r"^call:checked_sub\(call:max_fee_limit\(arg:self\),call:branch\(call:ok\(call:try_into\(%s\)\)\)\)$" % used
     rep.check(len(ex) == 1 and bool(re.match(want, ex[0])), "FORM-refund", "refund_fee", "%s:%s" % (f["file"], f["line"]),
               "refund_fee must be max_fee_limit().checked_sub(u64::try_from(gas_to_fee(min_gas + used_gas, price, factor) + tip).ok()?); found %s" % ex)
+
+    for n, f in fee_formula_fns(F, mg):
+        for i, c, args, dest, tgt, line in calls(f):
+            nm = callee_name(c)
+            if nm.endswith("::min_gas") or nm.endswith("::max_gas"):
+                want = "fuel_tx::transaction::fee::Chargeable::" + nm.rsplit("::", 1)[-1]
+                rep.check(c.get("def") == want and describe(f, args[0]) == "arg:self", "DISPATCH-min_gas", "%s:calls-%s-as-method" % (short(n).replace("fuel_tx::transaction::", ""), nm.rsplit("::", 1)[-1]),
+                          "%s:%s" % (f["file"], line), "%s must call self.%s(..) through the Chargeable trait; calls %s" % (n, nm.rsplit("::", 1)[-1], nm))
 
     # ---------------- no panic
     fee_fns = F.find(r"^fuel_tx::transaction::fee::", ["fuel_tx"]) + mg
